@@ -12,6 +12,7 @@
 pub use dusk_bls12_381::BlsScalar;
 use serde_json::{json, Value};
 
+pub mod components;
 pub mod gadgets;
 #[macro_use]
 pub mod widths;
